@@ -188,6 +188,18 @@ def guarded_by_range_check(f, use_id, pid, fld):
         if first and uv in g.reach(first[:1], include_start=True):
             continue
         return True
+    # the same test inside a validator helper called on a dominating path
+    import validators
+    for vg in validators.virtual_guards(f.prog, f, R):
+        if vg['throw_t'] != OOR:
+            continue
+        cv = g.vertex_of.get(vg['call'])
+        if cv is None or not g.dominates(cv, uv):
+            continue
+        size = 'this.%s.size' % fld
+        for l, op, r, _ in validators.throw_atoms(f.prog, vg, lambda x: x):
+            if (op == '>=' and l == want_a and r == size) or (op == '<=' and l == size and r == want_a):
+                return True
     return False
 
 
@@ -607,6 +619,19 @@ def check_typed_getter(prog, res, f, spec):
             return None
         outcome = walk_outcome(f, g, atom)
         want = 'return' if tv == want_type else 'throw:' + INVARG
+        if outcome != {want}:
+            # the guard may live in a helper: walk with the finite-model walker, which looks into throwing helpers
+            import a7
+            try:
+                _, end, und = a7.walk(f, {'this._data_type': tv}, follow_loops=True, max_steps=500)
+            except a7.OutOfRange:
+                end = 'undecided'
+            o2 = 'return' if end == 'NEXIT' else (end.split('@')[0] if end.startswith('throw:') else 'undecided')
+            if o2 == 'undecided':
+                res.undecided('typed-getter', f.sig, f.loc(), 'with stored type %d the outcome cannot be evaluated (%s)' % (tv, end), function=f.sig, expr='type=%d' % tv)
+                bad = True
+                continue
+            outcome = {o2}
         if outcome != {want}:
             res.viol('typed-getter', f.sig, f.loc(), 'with stored type %d the getter ends in %s, documented: %s' % (tv, sorted(outcome), want),
                      function=f.sig, expr='type=%d' % tv)
